@@ -7,6 +7,8 @@
       "args_in":[{"kind":k,"w":w,"raw":[bytes],"num":[[bytes],...]},...],
       "paylen":P,"args_out":[{"ti":[lo16,hi16],"be":b,"off":o,"raw":[bytes]},...],"text_ok":b,"text":[bytes]}
      {"ev":"panic","msg":...}                the code under test panicked (no action matches)
+     {"ev":"refused","enc":..,"lens":[n,..]}  the encoder returned an error; lens[i] = length the 16-bit length field of argument i
+                                             would have to carry (0 for fixed-size arguments)
    enc   serde = Serializer / dlt_args! (native byte order),  pfa = payload_from_args (both byte orders)
    raw   of a number: the bytes of the ORIGINAL value, little endian; of a bool: one byte 0/1; of a string / raw
          argument: the bytes handed to the encoder (the serde string encoder terminates with NUL itself)
@@ -186,8 +188,15 @@ KF_Codec == /\ KF_C18_EmptyArgNoLen
             /\ kfUsed' = kfUsed \cup {[case |-> case, kf |-> "KF_C18_EmptyArgNoLen"]}
             /\ phase' = "ended" /\ UNCHANGED <<case, viol>>
 
+\* the encoder may refuse (return an error for) a value it cannot represent: a string / raw argument whose 16-bit length field
+\* would overflow (lens[i] = bytes the length field would have to announce, incl. the terminator the serde encoder adds).
+\* Refusing anything that fits is not allowed; accepting what does not fit shows up as a `codec` event that fails CodecOk.
+Refused == /\ Ev("refused") /\ phase = "running"
+           /\ \E i \in 1..Len(Cur.lens) : Cur.lens[i] > 65535
+           /\ phase' = "ended" /\ UNCHANGED <<case, viol, kfUsed>>
+
 \* ---------------------------------------------------------------- recovery
-Matches == ENABLED Codec \/ ENABLED KF_Codec
+Matches == ENABLED Codec \/ ENABLED KF_Codec \/ ENABLED Refused
 Reject == /\ l <= Len(Rec) /\ Cur.ev # "reset" /\ phase = "running" /\ ~Matches
           /\ PrintT(<<"CASE_REJECTED", case, l, ToJson([ev |-> Cur.ev])>>)
           /\ l' = l + 1 /\ phase' = "rejected" /\ viol' = viol \cup {case}
@@ -198,7 +207,7 @@ SkipRest == /\ l <= Len(Rec) /\ Cur.ev # "reset" /\ phase \in {"rejected", "ende
                                   ELSE UNCHANGED <<viol, phase>>
             /\ UNCHANGED <<case, kfUsed>>
 
-Next == Reset \/ Codec \/ KF_Codec \/ Reject \/ SkipRest
+Next == Reset \/ Codec \/ KF_Codec \/ Refused \/ Reject \/ SkipRest
 Spec == Init /\ [][Next]_vars
 
 AtEnd == l = Len(Rec) + 1
